@@ -268,7 +268,8 @@ def run_property(pid, tier, seed, replay=None):
         return 0
 
     # --- replay tier (serial, seconds)
-    for path in replay_files(pid):
+    # (VERIF_NO_REPLAYS=1 skips it: used only to measure what the generators find on their own)
+    for path in ([] if os.environ.get("VERIF_NO_REPLAYS") else replay_files(pid)):
         with open(path) as f:
             j = json.load(f)
         case = prop.case_from_json(j["case"])
